@@ -11,12 +11,15 @@ Lines (one output line per input line):
 * `t now=<n>` → `ok <obs>`
 * `x k=<kind> m=<msg> c=<addr> ct=<0|1> [nc=<a|->] [no=<a>] [ex=<n|->] [al=<list>] [na=<a|->] [add=<list>] [rm=<list>] w=<0|1>`
   → `ok <obs>` / `err <obs>`
-* `i k=<kind> c=<addr> ct=<0|1> w=<0|1>` → the same
+* `i k=<kind> c=<addr> [mt=<addr>] ct=<0|1> w=<0|1>` → the same (`mt` = the address NAMED in the `minter` field of a collection's
+  instantiate message: ignored by the model on purpose — only the SENDER decides)
 * `s k=<kind> m=<msg> v=<n> w=<0|1>` → the same
 * `row k=<kind> m=<msg>` → `cls=<principal class>`; `irow k=<kind>` → `cls=<instantiate principal class>`
-* `cover k=<kind> m=<msg>` → `ok` when some caller can ever be authorised for that row (class ≠ nobody / sudo_only), else `err`
+* `cover k=<kind> m=<msg> …` → `n=<b> g=<b> gp=<b>`: the coverage the table demands of the row (`reservable`, `handsOver`)
+* `m=other` = a message kind the table does not list (default-deny, `MsgKind.other`); the real name rides along as `mn=`
 
-`<obs>` = `adm= own= pend= pex= cr= fz= wa= wm= sa= mem= ga= pv= st=` (members sorted numerically).
+`<obs>` = `adm= own= pend= pex= cr= fz= wa= wm= sa= mem= ga= pv= st= ## wa_stored=` (members and admins sorted numerically;
+after ` ## `: the stored order of the admin list — outside the property's projection).
 -/
 open LP LP.Proto LP.Priv
 
@@ -24,10 +27,12 @@ def b01 (b : Bool) : String := if b then "1" else "0"
 
 def sortNats (l : List Nat) : List Nat := l.mergeSort (fun a b => decide (a ≤ b))
 
+/-- `primary ## drift`: the whitelist admin list is compared as a set (sorted, duplicates removed) — the property constrains
+who is an admin, not the stored order; the stored order is outside the projection -/
 def renderObs (s : AuthState) : String :=
   s!"adm={s.minterAdmin} own={renderOpt s.collOwner} pend={renderOpt s.collPending} pex={renderOpt s.collPendingExpiry} " ++
-  s!"cr={s.creator} fz={b01 s.collFrozen} wa={renderNats s.wlAdmins} wm={b01 s.wlMutable} sa={renderOpt s.splitsAdmin} " ++
-  s!"mem={renderNats (sortNats s.members)} ga={renderOpt s.groupAdmin} pv={s.params} st={s.status}"
+  s!"cr={s.creator} fz={b01 s.collFrozen} wa={renderNats (sortNats s.wlAdmins).eraseDups} wm={b01 s.wlMutable} sa={renderOpt s.splitsAdmin} " ++
+  s!"mem={renderNats (sortNats s.members)} ga={renderOpt s.groupAdmin} pv={s.params} st={s.status} ## wa_stored={renderNats s.wlAdmins}"
 
 def emptyState : AuthState :=
   { now := 0, minterAdmin := 0, collOwner := none, collPending := none, collPendingExpiry := none, creator := 0,
@@ -84,10 +89,12 @@ def c05Line (s : AuthState) (line : String) : AuthState × String :=
     | some k => (s, s!"cls={(instPrincipal k).name}")
     | none => (s, "bad-op")
   | some "cover" =>
+    -- which coverage the LEAN table demands of a row: n = the principal passed once, g = the guard was reached,
+    -- gp = the guard was reached after the principal had been handed over
     match (kv ws "k").bind Kind.parse, (kv ws "m").bind MsgKind.parse with
     | some k, some m =>
       let p := principal k m
-      (s, if p == .nobody || p == .sudoOnly then "err" else "ok")
+      (s, s!"n={b01 (reservable p)} g={b01 (reservable p)} gp={b01 (reservable p && handsOver p)}")
     | _, _ => (s, "bad-op")
   | _ =>
     match parseOp ws with
